@@ -201,6 +201,13 @@ class Data(object):
         self.dim_agg_length = dim_agg_length
         self.dim_agg_axis = dim_agg_axis
         self.dim_agg_method = dim_agg_method
+        if verif.util.tracing():
+            verif.util.trace("DataInit", data=verif.util.object_id(self), inputs=[input.fullname for input in self._inputs],
+                  clim=self._clim is not None, times=[int(t) for t in self.times],
+                  leadtimes=[float(t) for t in self.leadtimes], locations=[float(loc.id) for loc in self.locations],
+                  time_indices=[[int(i) for i in I] for I in self._timesI],
+                  leadtime_indices=[[int(i) for i in I] for I in self._leadtimesI],
+                  location_indices=[[int(i) for i in I] for I in self._locationsI])
 
     def get_fields(self):
         """ Get a list of fields that all inputs have
@@ -245,6 +252,11 @@ class Data(object):
 
         key = (tuple(fields), input_index, axis, axis_index)
         if key in self._get_scores_cache.keys():
+            if verif.util.tracing():
+                verif.util.trace("GetScores", data=verif.util.object_id(self), fields=[f.name() for f in fields], input=input_index,
+                      axis=axis.name(), index=axis_index, hit=True,
+                      ids=[verif.util.object_id(a) for a in self._get_scores_cache[key]],
+                      shapes=[list(a.shape) for a in self._get_scores_cache[key]])
             if fields_is_single:
                 return self._get_scores_cache[key][0]
             else:
@@ -273,6 +285,9 @@ class Data(object):
             # Remove observations outside the obsrange
             if self._obs_range is not None and field == verif.field.Obs():
                 with np.errstate(invalid='ignore'):
+                    if verif.util.tracing():
+                        verif.util.trace("ObsRange", data=verif.util.object_id(self), input=input_index, id=verif.util.object_id(temp),
+                              masked=int(np.sum((temp < self._obs_range[0]) | (temp > self._obs_range[1]))))
                     temp[temp < self._obs_range[0]] = np.nan
                     temp[temp > self._obs_range[1]] = np.nan
 
@@ -309,6 +324,10 @@ class Data(object):
             scores = [np.nan * np.zeros(1, float) for i in range(0, len(fields))]
 
         self._get_scores_cache[key] = scores
+        if verif.util.tracing():
+            verif.util.trace("GetScores", data=verif.util.object_id(self), fields=[f.name() for f in fields], input=input_index,
+                  axis=axis.name(), index=axis_index, hit=False,
+                  ids=[verif.util.object_id(a) for a in scores], shapes=[list(a.shape) for a in scores])
 
         # Turn into a single numpy array if we were not supplied with a list of
         # fields
@@ -495,6 +514,9 @@ class Data(object):
                             verif.util.warning("No observations in %s. Loading from %s" % (self._inputs[i].fullname, self._inputs[j].fullname))
                             self._get_score_cache[i][field] = self._get_score_cache[j][field]
                             break
+            if verif.util.tracing():
+                verif.util.trace("Load", data=verif.util.object_id(self), field=field.name(),
+                      ids=[verif.util.object_id(self._get_score_cache[i][field]) for i in range(num_inputs)])
         else:
             # Check if data is cached
             if field in self._get_score_cache[input_index]:
@@ -583,6 +605,9 @@ class Data(object):
                     temp = temp[:, :, Ilocations]
 
                     self._get_score_cache[i][field] = temp
+            if verif.util.tracing():
+                verif.util.trace("Load", data=verif.util.object_id(self), field=field.name(),
+                      ids=[verif.util.object_id(self._get_score_cache[i][field]) for i in range(num_inputs)])
 
         """
         Remove missing. If one configuration has a missing value, set all
@@ -593,6 +618,9 @@ class Data(object):
             is_missing = np.isnan(self._get_score_cache[0][field])
             for i in range(1, num_inputs):
                 is_missing = is_missing | (np.isnan(self._get_score_cache[i][field]))
+            if verif.util.tracing():
+                verif.util.trace("Propagate", data=verif.util.object_id(self), field=field.name(),
+                      changed=int(np.sum(is_missing & ~np.all([np.isnan(self._get_score_cache[i][field]) for i in range(num_inputs)], axis=0))))
             for i in range(num_inputs):
                 self._get_score_cache[i][field][is_missing] = np.nan
 
